@@ -136,6 +136,8 @@ pub enum Stmt {
     LetBlock { name: String, body: Vec<Stmt>, result: Expr },
     /// one-line statements written on one line, separated by `; `
     Seq(Vec<Stmt>),
+    /// statements generated together, each on its own line(s)
+    Group(Vec<Stmt>),
 }
 
 #[derive(Clone, Debug, Default)]
@@ -784,7 +786,8 @@ impl<'a> Gen<'a> {
         let w_while = if self.cfg.no_while { 0 } else { w_loop / 2 };
         let w_range = if self.cfg.no_range_loops { 0 } else { w_loop };
         let w_ifs = if self.cfg.no_if_stmt { 0 } else { 2 };
-        match self.t.weighted(&[6, 7, w_func, w_func, w_range, w_loop, w_while, w_ifs, 1, 1, w_exit]) {
+        match self.t.weighted(&[6, 7, w_func, w_func, w_range, w_loop, w_while, w_ifs, 1, 1, w_exit, w_func]) {
+            11 => self.func_pair(),
             0 => self.print_stmt(),
             1 => {
                 let ty = self.any_ty();
@@ -922,6 +925,47 @@ impl<'a> Gen<'a> {
             _ => {
                 self.feat("stmt:exit");
                 Stmt::Exit(self.t.pick(4) as u8)
+            }
+        }
+    }
+
+    /// a helper function and its only user, in either order (forward reference), or a
+    /// one-line helper used later on the same line
+    fn func_pair(&mut self) -> Stmt {
+        self.feat("stmt:function-pair");
+        let h = self.fresh("h");
+        let p = self.fresh("p");
+        let saved = self.vars.clone();
+        self.vars = vec![(p.clone(), Ty::Nat)];
+        self.in_func = true;
+        let hbody = self.expr(&Ty::Nat, 2);
+        self.in_func = false;
+        self.vars = saved;
+        let helper = Stmt::Func { name: h.clone(), params: vec![Param { name: p, ty: Ty::Nat, default: None }], ret: Ty::Nat, ret_ann: self.t.pick(2) == 0, body: vec![], result: hbody };
+        let arg = Expr::Nat(self.t.pick(50) as u64);
+        match self.t.pick(3) {
+            0 => {
+                // same line: `h(p: Nat) = ...; print! h(3)`
+                self.feat("layout:semicolon");
+                Stmt::Seq(vec![helper, Stmt::Print(vec![Expr::Call(h, vec![arg], vec![])])])
+            }
+            k => {
+                let f = self.fresh("f");
+                let user = Stmt::Func {
+                    name: f.clone(),
+                    params: vec![],
+                    ret: Ty::Nat,
+                    ret_ann: false,
+                    body: vec![],
+                    result: Expr::Bin("+", Box::new(Expr::Call(h, vec![arg], vec![])), Box::new(Expr::Nat(1))),
+                };
+                let call = Stmt::Print(vec![Expr::Call(f, vec![], vec![])]);
+                if k == 1 {
+                    Stmt::Group(vec![helper, user, call])
+                } else {
+                    self.feat("order:forward-reference");
+                    Stmt::Group(vec![user, helper, call])
+                }
             }
         }
     }
@@ -1176,6 +1220,7 @@ pub fn erg_stmt(s: &Stmt, level: usize, out: &mut String) {
                 out.push_str(&format!("{}{}\n", ind(level + 1), erg_expr(result)));
             }
         }
+        Stmt::Group(v) => erg_block(v, level, out),
         Stmt::Seq(v) => {
             let mut parts = vec![];
             for s in v {
@@ -1249,7 +1294,7 @@ pub fn py_stmt(s: &Stmt, level: usize, out: &mut String) {
     let i = ind(level);
     match s {
         Stmt::Let { name, e, .. } => out.push_str(&format!("{i}{name} = {}\n", py_expr(e))),
-        Stmt::Seq(v) => {
+        Stmt::Seq(v) | Stmt::Group(v) => {
             for s in v {
                 py_stmt(s, level, out);
             }
@@ -1340,6 +1385,7 @@ impl Program {
                 .iter()
                 .map(|s| match s {
                     Stmt::Print(_) => 1,
+                    Stmt::Seq(v) | Stmt::Group(v) => c(v),
                     Stmt::ForRange { body, .. } | Stmt::ForList { body, .. } | Stmt::While { body, .. } => c(body),
                     Stmt::IfStmt { then, els, .. } => c(then) + els.as_ref().map(|e| c(e)).unwrap_or(0),
                     _ => 0,
